@@ -6,7 +6,7 @@ def tla_prog(flat):
     out = []
     for e in flat["elems"]:
         out.append({"kind": e["kind"], "parent": e["parent"], "tags": e["tags"], "children": e["children"],
-                    "steps": [{"o": s["o"], "o2": s["o2"], "def": s["def"], "org": s["org"], "k": s["k"], "cl_id": s["cl_id"],
+                    "steps": [{"stype": s["stype"], "o": s["o"], "o2": s["o2"], "def": s["def"], "org": s["org"], "k": s["k"], "cl_id": s["cl_id"],
                                "cl_layer": s["cl_layer"], "cl_raises": s["cl_raises"]} for s in e["steps"]],
                     "has_bg": e["has_bg"]})
     return out
@@ -34,4 +34,4 @@ def make_case(tid, prog, cfgs, faults):
     flat = G.flatten(prog)
     return {"tid": tid, "prog": tla_prog(flat), "features": flat["features"], "cfgs": [tla_cfg(c) for c in cfgs],
             "faults": [list(f) for f in faults], "skips": tla_skips(prog.get("skips")),
-            "hookcl": bool(prog.get("hookcl"))}, flat
+            "hookcl": bool(prog.get("hookcl")), "typed": bool(prog.get("typed"))}, flat
